@@ -6,7 +6,11 @@ PROP = {
              "that forbids stores below 0x8000 (runOp_guard, all 90 Op variants), and the cartridge state in front of every one of its "
              "instruction fetches is the one at block entry - so the translation made at entry is of the bytes mapped at every program "
              "counter of the block; partial: blocks in the switchable bank that DO store below 0x8000 are the recorded finding, the two "
-             "kernel-evaluated examples show the boundary is sharp. Tie: the "
+             "kernel-evaluated examples show the boundary is sharp; (interp_walk_is_translation_partial) for such a block at a translatable "
+             "ROM address the interpreter's run_code_block gives the result of the guarded walk and the guest bytes it decodes, "
+             "instruction by instruction, ARE the bytes translate_code_block consumes under the bank mapped at entry - same "
+             "instruction boundaries, same block end (fetch3 = ROM bytes under the mapped bank, run_op advances PC by the decoded "
+             "length for every non-terminating Op, the region-end rule is shared). Tie: the "
              "real Core::run_code_block of the jit build with a persistent cache, with a cache emptied before every block, and of the "
              "non-jit build run the same generated histories on multi-bank MBC1/MBC3 ROMs whose banks differ at equal addresses; "
              "registers/bank after every block must agree three ways and hit/miss/bytes_translated follow the model's key discipline.",
@@ -16,8 +20,8 @@ PROP = {
     "technique": "Lean 4 invariant proof over fetch histories of a cache model + three-way differential (warm / cold / interpreter) across builds",
     "gen": ["gen_decoder.py", "gen_ops.py"],
     "streams": [{"name": "c03", "join": True, "shards": {"quick": 2, "thorough": 16}}],
-    "modules": ["GbVerif.Model.Cache", "GbVerif.Model.Cpu", "GbVerif.Proofs.Enum", "GbVerif.Proofs.InterpMono", "GbVerif.Proofs.InterpFrame", "GbVerif.Proofs.CartFrame"],
-    "rule": "4 cartridges (MBC1 64 banks, MBC3 32, MBC1 4, MBC3 128) x 75 (thorough 2500) histories of 10..130 (410) operations: jump to an "
+    "modules": ["GbVerif.Model.Cache", "GbVerif.Model.Cpu", "GbVerif.Proofs.Enum", "GbVerif.Proofs.InterpMono", "GbVerif.Proofs.InterpFrame", "GbVerif.Proofs.CartFrame", "GbVerif.Proofs.BlockWalk", "GbVerif.Proofs.InterpLen", "GbVerif.Proofs.BusWf"],
+    "rule": "6 cartridges (MBC1 64 banks, MBC3 32, MBC1 4, MBC3 128, MBC1 2, MBC3 2) x 50 (thorough 1700) histories of 10..130 (410) operations: jump to an "
             "entry (bank-0 blocks, bank-switching trampolines in bank 0, blocks at equal addresses in every bank, a block running up to "
             "0x3FFF, and in one history of five trampolines inside the switchable bank), run a block, write a bank register; "
             "non-trivial = more than two distinct (bank, address) blocks were translated",
